@@ -392,7 +392,7 @@ where
             // latches
             for i in 0..h.latches.1 {
                 let (inp, (_, lit)) = ascii::literal(h.vars)(input)?;
-                let (inp, init) = ascii::latch_init_ext(AIGLiteral(i + first_latch * 2))(inp)?;
+                let (inp, init) = ascii::latch_init_ext(AIGLiteral((i + first_latch) * 2))(inp)?;
                 input = eol_or_eof(inp)?.0;
                 aig.latches.push(make_literal(lit));
                 aig.latch_init_values.push(init);
